@@ -135,7 +135,8 @@ def _compile_all(zdir, rels):
     return out
 
 
-def check(case, rec: Rec) -> None:
+def check(case, rec: Rec, only=None) -> None:
+    """only: restrict the oracle to these clause names (used by C12's `moved` part)."""
     files = {}
     for rel, pg in case["dir"].items():
         files[rel] = P.render(pg, case["today"])[0]
@@ -167,7 +168,11 @@ def check(case, rec: Rec) -> None:
             try:
                 if dest_init not in (None, "SAME", "EXISTING"):
                     (zdir / dest_rel).write_text(dest_init)
-                _one_move(zdir, cfg, note, rows, src_rel, dest_rel, dest_init, mv, rec, one, files)
+                _one_move(zdir, cfg, note, rows, src_rel, dest_rel, dest_init, mv, rec, one, files, only=only)
+            except (KeyError, IndexError) as e:
+                if only is None:
+                    raise
+                rec.label("restricted-oracle:aborted-after-foreign-clause")
             finally:
                 env.fresh_process()
                 shutil.rmtree(zdir, ignore_errors=True)
@@ -185,6 +190,9 @@ def check(case, rec: Rec) -> None:
             if mv["marker"]:
                 rec.label("marker")
             rec.info["moves"] = rec.info.get("moves", 0) + 1
+        if only is not None:
+            rec.nontrivial = nontriv >= 1
+            return
         # refusals: an unknown ZID, and a missing destination no template pattern matches -- the
         # command must not report success and must not touch any file
         zdir = box / "refuse"
@@ -220,7 +228,12 @@ def _inherits(case_dir, note) -> bool:
     return any((k + "::") not in own for k in note["props"])
 
 
-def _one_move(zdir, cfg, note, rows, src_rel, dest_rel, dest_init, mv, rec, one, files):
+def _one_move(zdir, cfg, note, rows, src_rel, dest_rel, dest_init, mv, rec, one, files, only=None):
+    def fail(clause, detail, case=None):
+        if only is None or clause.split(":")[0] in only:
+            raise Violation(clause, detail, case=case)
+        rec.label("restricted-oracle:foreign-clause-skipped")
+
     zid = note["zid"]
     bw = note["body"].split()
     while bw and (re.fullmatch(r"\d{6}", bw[0]) or bw[0] == zid):
@@ -259,13 +272,13 @@ def _one_move(zdir, cfg, note, rows, src_rel, dest_rel, dest_init, mv, rec, one,
         # created from the template
         dest_before = "# Done new\n"
         if not dest_after.startswith("# Done new\n"):
-            raise Violation("template-not-used", f"{what}: new page starts with {dest_after[:60]!r}", case=one)
+            fail("template-not-used", f"{what}: new page starts with {dest_after[:60]!r}", case=one)
     if dest_rel == src_rel:
         expected_src = None
     else:
         expected_src = "\n".join(sl[:i0] + sl[i0 + n_lines:])
         if src_after != expected_src:
-            raise Violation("source-not-minus-note",
+            fail("source-not-minus-note",
                             f"{what}\n--- source before\n{src_before}\n--- source after\n{src_after}", case=one)
     # destination: old lines + one contiguous block
     dl_before = (dest_before if dest_rel != src_rel else "\n".join(sl[:i0] + sl[i0 + n_lines:])).split("\n")
@@ -280,39 +293,46 @@ def _one_move(zdir, cfg, note, rows, src_rel, dest_rel, dest_init, mv, rec, one,
     if len(dl_before) - p - q > 0:
         lost = dl_before[p:len(dl_before) - q]
         if [x for x in lost if x.strip()]:
-            raise Violation("destination-lines-lost",
+            fail("destination-lines-lost",
                             f"{what}: destination lines {lost!r} were replaced by {block!r}\n--- destination before\n"
                             f"{chr(10).join(dl_before)}\n--- after\n{dest_after}", case=one)
     # be tolerant about which of two equal neighbouring lines "moved": re-anchor on the ZID line
     zl = [i for i, x in enumerate(dl_after) if f" {zid} " in x + " " and x[:1] in "-ox~<>"]
     if len(block) < n_lines:
-        raise Violation("note-not-added", f"{what}: added block {block!r}, note has {n_lines} lines\n{dest_after}", case=one)
+        fail("note-not-added", f"{what}: added block {block!r}, note has {n_lines} lines\n{dest_after}", case=one)
     kind_char = mv["marker"] or P_KIND_CHAR[note["kind"]]
     blk = [x for x in block]
     # the block may carry one blank line (the replaced separator)
     core = [x for x in blk if x.strip() != ""]
     if len(core) != n_lines:
-        raise Violation("added-block-shape", f"{what}: added lines {blk!r}", case=one)
+        fail("added-block-shape", f"{what}: added lines {blk!r}", case=one)
     if not core[0].startswith(kind_char + " "):
-        raise Violation("moved-note-kind", f"{what}: first added line {core[0]!r}, requested kind {kind_char!r}", case=one)
+        fail("moved-note-kind", f"{what}: first added line {core[0]!r}, requested kind {kind_char!r}", case=one)
     if core[1:] != item_lines[1:]:
-        raise Violation("continuation-lines-changed", f"{what}: {core[1:]!r} != {item_lines[1:]!r}", case=one)
+        fail("continuation-lines-changed", f"{what}: {core[1:]!r} != {item_lines[1:]!r}", case=one)
+    # the emitted text on its own (under a page header) is one valid item with the note's ZID
+    (zdir / "zz_alone.zo").write_text("# h\n\n" + "\n".join(core) + "\n")
+    he_alone, rows_alone = _compile_all(zdir, ["zz_alone.zo"])["zz_alone.zo"]
+    (zdir / "zz_alone.zo").unlink()
+    if he_alone or len(rows_alone) != 1 or rows_alone[0]["zid"] != zid:
+        fail("moved-text-not-one-valid-item", f"{what}: the added lines {core!r} on their own compile to "
+             f"{len(rows_alone)} note(s), has_errors={he_alone}", case=one)
     # recompile everything
     rels_after = sorted(set(files) | {dest_rel})
     compiled_after = _compile_all(zdir, rels_after)
     for rel, (he, _) in compiled_after.items():
         if he and not compiled_before.get(rel, (False, None))[0]:
-            raise Violation("page-broken-after-move", f"{what}: {rel} has syntax errors now\n{(zdir / rel).read_text()}",
+            fail("page-broken-after-move", f"{what}: {rel} has syntax errors now\n{(zdir / rel).read_text()}",
                             case=one)
     before_notes = {n["zid"]: n for rel in compiled_before for n in compiled_before[rel][1]}
     after_notes = {}
     for rel in compiled_after:
         for n in compiled_after[rel][1]:
             if n["zid"] in after_notes:
-                raise Violation("duplicate-zid-after-move", f"{what}: {n['zid']} occurs twice", case=one)
+                fail("duplicate-zid-after-move", f"{what}: {n['zid']} occurs twice", case=one)
             after_notes[n["zid"]] = n
     if set(before_notes) != set(after_notes):
-        raise Violation("note-set-changed", f"{what}: lost {sorted(set(before_notes) - set(after_notes))}, "
+        fail("note-set-changed", f"{what}: lost {sorted(set(before_notes) - set(after_notes))}, "
                         f"new {sorted(set(after_notes) - set(before_notes))}", case=one)
     for z, b in before_notes.items():
         a = after_notes[z]
@@ -321,31 +341,31 @@ def _one_move(zdir, cfg, note, rows, src_rel, dest_rel, dest_init, mv, rec, one,
         for f in ("page", "section", "kind", "priority", "body", "create", "modify", "areas", "contexts", "people",
                   "projects", "links", "props"):
             if a[f] != b[f]:
-                raise Violation("other-note-changed:" + f, f"{what}: note {z}: {f} {b[f]!r} -> {a[f]!r}", case=one)
+                fail("other-note-changed:" + f, f"{what}: note {z}: {f} {b[f]!r} -> {a[f]!r}", case=one)
     b, a = before_notes[zid], after_notes[zid]
     if a["page"] != dest_rel:
-        raise Violation("moved-note-page", f"{what}: note now on {a['page']}", case=one)
+        fail("moved-note-page", f"{what}: note now on {a['page']}", case=one)
     want_kind = {"x": "CLOSED_TODO", "~": "CANCELED_TODO"}.get(mv["marker"], b["kind"])
     if a["kind"] != want_kind:
-        raise Violation("moved-note-kind", f"{what}: kind {a['kind']}, wanted {want_kind}", case=one)
+        fail("moved-note-kind", f"{what}: kind {a['kind']}, wanted {want_kind}", case=one)
     for f in ("areas", "contexts", "people", "projects"):
         if not set(b[f]) <= set(a[f]):
-            raise Violation("moved-note-lost-tag", f"{what}: {f} {b[f]} -> {a[f]}", case=one)
+            fail("moved-note-lost-tag", f"{what}: {f} {b[f]} -> {a[f]}", case=one)
     for k, v in b["props"].items():
         if a["props"].get(k) != v:
-            raise Violation("moved-note-lost-property", f"{what}: property {k}={v!r} -> {a['props'].get(k)!r}; "
+            fail("moved-note-lost-property", f"{what}: property {k}={v!r} -> {a['props'].get(k)!r}; "
                             f"moved text {core[0]!r}", case=one)
     if a["create"] != b["create"] or a["modify"] != b["modify"]:
-        raise Violation("moved-note-dates", f"{what}: dates {b['create']}/{b['modify']} -> {a['create']}/{a['modify']}",
+        fail("moved-note-dates", f"{what}: dates {b['create']}/{b['modify']} -> {a['create']}/{a['modify']}",
                         case=one)
     if b["kind"] == want_kind and b["kind"] not in ("BASIC", "CLOSED_TODO", "CANCELED_TODO") and a["priority"] != b["priority"]:
-        raise Violation("moved-note-priority", f"{what}: {b['priority']} -> {a['priority']}", case=one)
+        fail("moved-note-priority", f"{what}: {b['priority']} -> {a['priority']}", case=one)
     bw, aw = b["body"].split(), a["body"].split()
     it = iter(aw)
     if not all(w in it for w in bw):
-        raise Violation("moved-note-body", f"{what}: body {b['body']!r} -> {a['body']!r}", case=one)
+        fail("moved-note-body", f"{what}: body {b['body']!r} -> {a['body']!r}", case=one)
     if a["body"].split("\n")[1:] != b["body"].split("\n")[1:]:
-        raise Violation("moved-note-body", f"{what}: continuation lines differ", case=one)
+        fail("moved-note-body", f"{what}: continuation lines differ", case=one)
 
 
 P_KIND_CHAR = {v: k for k, v in P.KIND_NAME.items()}
